@@ -333,7 +333,7 @@ pub fn run(cfg: &Cfg, rep: &mut Report) {
     run_cases(cfg, "text", cfg.n(40, 900_000, 18_000_000), rep, |rng, ctx| {
         // string content: any ASCII incl. quotes, separators, control characters; sometimes non-ASCII
         let mx = if rng.chance(1, 20) { 300 } else { 24 };
-        let n = rng.usize(mx + 1);
+        let n = if rng.chance(1, 60) && !ctx.cfg.tiny { *rng.pick(&[255usize, 256, 257, 1000, 65_535, 65_536, 65_537, 70_000]) } else { rng.usize(mx + 1) };
         let mut s: Vec<u8> = (0..n).map(|_| match rng.usize(5) { 0 => *rng.pick(b"\"\"';,\n\r#() "), 1 => rng.usize(128) as u8, _ => b' ' + rng.usize(95) as u8 }).collect();
         if rng.chance(1, 15) && !s.is_empty() {
             let i = rng.usize(s.len());
@@ -473,8 +473,14 @@ pub fn run(cfg: &Cfg, rep: &mut Report) {
     rep.exhaustive.insert("every standard ErrorCode (found by sweeping get_error over all i16), plain and with two extended texts".into(), complete);
     run_cases(cfg, "errors-custom", cfg.n(20, 300_000, 6_000_000), rep, |rng, ctx| {
         let p = pools();
-        let msg = *rng.pick(&p.ascii);
-        let ext = *rng.pick(&p.ascii);
+        // mostly short texts; sometimes a long message and/or long extended text (the item must still denote
+        // exactly what was given, whatever its length)
+        let limit = if ctx.cfg.tiny { 12 } else { p.long_ascii.len() };
+        let msg = if rng.chance(1, 8) { p.long_ascii[rng.usize(limit)] } else { *rng.pick(&p.ascii) };
+        let ext = if rng.chance(1, 8) { p.long_ascii[rng.usize(limit)] } else { *rng.pick(&p.ascii) };
+        if msg.len() + ext.len() > 90 {
+            ctx.count("errors.long-text");
+        }
         let code = match rng.usize(4) {
             0 => rng.next() as i16,
             1 => *rng.pick(&[i16::MIN, i16::MAX, -1, 1, 0, -350, -399, -300]),
